@@ -126,6 +126,9 @@ func genConc(c *genCtx) error {
 						runStr(gc.sws["values"], &j, in.data, rng.Intn(8), gc.st)
 					case "tok":
 						runTok(gc.sws["values"], &j, in.data, gc.st)
+						for t := 0; t < 256; t += 1 + rng.Intn(3) {
+							_ = rjson.TokenType(t).String() // every value of the exported type, defined or not
+						}
 					case "dec":
 						runDecode(gc.sws["values"], &j, rng.Intn(len(decodeFns)), in.data, gc.st)
 					case "san":
